@@ -572,6 +572,28 @@ theorem C13_earley_example_run :
   refine ⟨startState_ready _ _ _, by decide +kernel, by decide +kernel, by decide +kernel, by decide +kernel,
     by decide +kernel, by decide +kernel, by decide +kernel, by decide +kernel⟩
 
+/-- `<start> ::= <n> "a" <start> | <n> "a";  <n> ::= r"[0-9]{2}"` -/
+def exReG : Grammar := ⟨[
+  ("<start>", .alt "A1" [.cat "C1" [.nt "<n>" none none, .term (.lit (.text [97])), .nt "<start>" none none],
+                         .cat "C2" [.nt "<n>" none none, .term (.lit (.text [97]))]]),
+  ("<n>", .term (.regex 0))]⟩
+
+def exReEng : Engine KI := earleyEngine (predDefault exReG Variant.now.cap) 400
+
+/-- a cut INSIDE a regex match on the real closure ("1" | "2a", cut-stable oracle of `r"[0-9]{2}"`): the hypotheses
+    hold, the parse is the one of the whole input, after "1" the regex waits as a resumable state with prefix "1" -/
+theorem C13_earley_example_regex_run :
+    chunkOkB (predDefault exReG Variant.now.cap) 400 twoDigits .text (startState "<start>") [[50, 97], [49]] = true ∧
+    (completeParses exReEng twoDigits .text (feed exReEng twoDigits .text (startState "<start>") [49, 50, 97])).map
+      Tree.leaves = [[Leaf.text [49, 50], Leaf.text [97]]] ∧
+    (completeParses exReEng twoDigits .text
+      ([[49], [50, 97]].foldl (feed exReEng twoDigits .text) (startState "<start>"))).map Tree.leaves
+      = [[Leaf.text [49, 50], Leaf.text [97]]] ∧
+    (resumable (feed exReEng twoDigits .text (startState "<start>") [49])).map (fun e => (e.idx, e.pre))
+      = [(1, [49])] ∧
+    canContinue exReEng (feed exReEng twoDigits .text (startState "<start>") [49, 50, 97]) = true := by
+  refine ⟨by decide +kernel, by decide +kernel, by decide +kernel, by decide +kernel, by decide +kernel⟩
+
 /-! ### why the passes are restricted: `place_repetition_shortcut` -/
 
 /-- `<start> ::= <b>*;  <b> ::= "y" | "z"` -/
